@@ -85,7 +85,7 @@ def arg(a):
         return chr(a[1])
     if a[0] == 'tok':
         return getattr(tk, a[1])()
-    return {'multi': 'ab', 'int': 5, 'none': None, 'list': ['a'], 'emptystr': '', 'pregex': Pregex('ab'),
+    return {'multi': 'ab', 'multiesc': '\\n', 'int': 5, 'none': None, 'list': ['a'], 'emptystr': '', 'pregex': Pregex('ab'),
             'float': 1.5}[a[1]]
 
 
